@@ -653,4 +653,61 @@ theorem expr_simF (F1 : Nat) : ∀ F2, ISimE c F1 F2 ∧ ISimL c F1 F2 ∧ ISimU
 
 end
 
+/-- Two parses whose initial cursors are related: the same tree, or the same failure up to its
+position. Fuel is never exhausted (`parseExprText_total`). -/
+theorem parseExprText_inline {c : ICtx} (hc : c.OK) (template inlined : Str) (tbl : List (Char × Char))
+    (h : CR c (Cursor.ofRunes template) (Cursor.ofRunes inlined)) :
+    match parseExprText template c.params tbl, parseExprText inlined c.params tbl with
+    | .ok e1, .ok e2 => e1 = e2
+    | .error f1, .error f2 => f1.erase = f2.erase
+    | _, _ => False := by
+  have hsr : SR c (PState.init template c.params tbl) (PState.init inlined c.params tbl) :=
+    ⟨rfl, rfl, rfl, rfl, All2.nil, h⟩
+  have hsim := (expr_simF hc (fuelFor template) (fuelFor inlined)).1 _ _ (Or.inl hsr)
+  have t1 : match (Prod.fst <$> (parseExpr (fuelFor template)).run (PState.init template c.params tbl)) with
+      | .ok _ => True
+      | .error f => f.isErr := parseExprText_total template c.params tbl
+  have t2 : match (Prod.fst <$> (parseExpr (fuelFor inlined)).run (PState.init inlined c.params tbl)) with
+      | .ok _ => True
+      | .error f => f.isErr := parseExprText_total inlined c.params tbl
+  unfold wpF wpE at hsim
+  show match (Prod.fst <$> (parseExpr (fuelFor template)).run (PState.init template c.params tbl)),
+      (Prod.fst <$> (parseExpr (fuelFor inlined)).run (PState.init inlined c.params tbl)) with
+    | .ok e1, .ok e2 => e1 = e2
+    | .error f1, .error f2 => f1.erase = f2.erase
+    | _, _ => False
+  cases h1 : (parseExpr (fuelFor template)).run (PState.init template c.params tbl) with
+  | error f1 =>
+    rw [h1] at hsim t1
+    cases h2 : (parseExpr (fuelFor inlined)).run (PState.init inlined c.params tbl) with
+    | error f2 =>
+      rw [h2] at hsim t2
+      rcases hsim with e | e | e
+      · injection e with e; subst e; exact t1.elim
+      · injection e with e; subst e; exact t2.elim
+      · exact e
+    | ok q2 =>
+      rw [h2] at hsim
+      rcases hsim with e | e | e
+      · injection e with e; subst e; exact t1.elim
+      · cases e
+      · exact e.elim
+  | ok q1 =>
+    obtain ⟨a1, u1⟩ := q1
+    rw [h1] at hsim
+    cases h2 : (parseExpr (fuelFor inlined)).run (PState.init inlined c.params tbl) with
+    | error f2 =>
+      rw [h2] at hsim t2
+      rcases hsim with e | e | e
+      · cases e
+      · injection e with e; subst e; exact t2.elim
+      · exact e.elim
+    | ok q2 =>
+      obtain ⟨a2, u2⟩ := q2
+      rw [h2] at hsim
+      rcases hsim with e | e | e
+      · cases e
+      · cases e
+      · exact e.1
+
 end InfluxQL
